@@ -6,7 +6,7 @@
    pending exception, the unraisable-hook log, GIL ownership and a counter of thread-state
    accesses made without the GIL.  documented = the user guide's meaning of the declaration. *)
 From Coq Require Import ZArith List Bool.
-From CyVerif Require Import Lib.CInt Model.M_ExcSpec Proof.P_ExcSpec Gen.Gen_ExcSpec.
+From CyVerif Require Import Lib.CInt Model.M_ExcSpec Model.M_ExcTest Proof.P_ExcSpec Proof.P_ExcTest Gen.Gen_ExcSpec.
 Import ListNotations.
 Open Scope Z_scope.
 
@@ -141,6 +141,112 @@ Proof.
   exact (proj1 (forallb_forall decl_row_ok decl_rows) C32_decl_table_matches (f, k, c, res) H).
 Qed.
 Print Assumptions C32_decl_table_rows.
+
+(* ---- value level (Model/M_ExcTest.v): the emitted C text  result == ((T)constant)  evaluated with C's
+   typing of constants, integer promotion, usual arithmetic conversions and casts.  rt = return type,
+   tc = type the constant is cast to, e = the constant expression (ceval e = its C type and value),
+   stored rt e = what the callee's error path leaves in the result (constant converted to rt). *)
+
+(* every integer return type (any width >= 1, either signedness), every constant expression, every cast type
+   that does not change the stored value (in particular tc = rt), every returned value r of the return type:
+   the emitted test is true exactly when r is the stored sentinel *)
+Theorem C32_value_cast_exact : forall rt tc e te v r,
+  1 <= iw rt -> 1 <= iw tc -> in_ty rt r = true -> ceval e = Some (te, v) ->
+  conv tc v = conv rt v ->
+  eq_test rt r (emitted (Some tc) e) = Some (r =? conv rt v).
+Proof. exact cast_exact. Qed.
+Print Assumptions C32_value_cast_exact.
+
+Theorem C32_value_cast_ret_matches_stored : forall rt e te v r,
+  1 <= iw rt -> in_ty rt r = true -> ceval e = Some (te, v) ->
+  (fires (Some rt) rt e r = true <-> stored rt e = Some r).
+Proof. exact cast_ret_matches_stored. Qed.
+Print Assumptions C32_value_cast_ret_matches_stored.
+
+(* the value of a constant expression lies in its C type (no hidden totalisation in ceval) *)
+Theorem C32_value_const_in_range : forall e t v, ceval e = Some (t, v) -> 1 <= iw t /\ in_ty t v = true.
+Proof. exact ceval_in_range. Qed.
+Print Assumptions C32_value_const_in_range.
+
+(* the cast is needed: without it, for EVERY unsigned return type narrower than int and EVERY negative
+   constant of a signed type, the test is false for every returned value *)
+Theorem C32_value_nocast_never_fires : forall rt e te v r,
+  1 <= iw rt -> iw rt < 32 -> isg rt = false -> in_ty rt r = true ->
+  ceval e = Some (te, v) -> isg te = true -> v < 0 ->
+  eq_test rt r (emitted None e) = Some false.
+Proof. exact nocast_never_fires. Qed.
+Print Assumptions C32_value_nocast_never_fires.
+
+(* a cast to a type in which the constant is not a value of the return type, compared in a signed type *)
+Theorem C32_value_out_of_range_never_fires : forall rt tc e te v r,
+  1 <= iw rt -> 1 <= iw tc -> in_ty rt r = true -> ceval e = Some (te, v) ->
+  isg (uac (promote rt) (promote tc)) = true -> in_ty rt (conv tc v) = false ->
+  eq_test rt r (emitted (Some tc) e) = Some false.
+Proof. exact out_of_range_never_fires. Qed.
+Print Assumptions C32_value_out_of_range_never_fires.
+
+(* witnesses: unsigned char, -1, returned 255 (uncast text); unsigned char, (long)(-(1 + 1)), 254 (the
+   code as it is for constant EXPRESSIONS, which the compiler types long -- finding
+   sentinel_cast_to_constant_type) *)
+Theorem C32_value_nocast_refuted :
+  exists rt e r, in_ty rt r = true /\ stored rt e = Some r /\ fires None rt e r = false.
+Proof. exact nocast_refuted. Qed.
+Print Assumptions C32_value_nocast_refuted.
+
+Theorem C32_value_cast_const_refuted :
+  exists rt tc e r, in_ty rt r = true /\ stored rt e = Some r /\ fires (Some tc) rt e r = false.
+Proof. exact cast_const_refuted. Qed.
+Print Assumptions C32_value_cast_const_refuted.
+
+(* the abstract sentinel test of the decision-level model IS the emitted C test *)
+Theorem C32_value_test_is_model_test : forall rt tc e te v r,
+  1 <= iw rt -> 1 <= iw tc -> in_ty rt r = true -> ceval e = Some (te, v) -> conv tc v = conv rt v ->
+  c_test (kind_of rt) (Sent (VInt (conv rt v)) false) (VInt r) = fires (Some tc) rt e r.
+Proof. exact c_test_is_emitted_test. Qed.
+Print Assumptions C32_value_test_is_model_test.
+
+(* composition: callee epilogue + the emitted text at the call site = the documented outcome, for every
+   integer return type, constant, except v / except? v, flavour, caller context, body and value *)
+Theorem C32_value_faithful : forall rt tc e te v ck fl cn b st,
+  1 <= iw rt -> 1 <= iw tc -> ceval e = Some (te, v) -> conv tc v = conv rt v ->
+  chk_plus ck = false ->
+  let fsp := {| ev := Some (Sent (VInt (conv rt v)) false); ec := ck |} in
+  cython_body b = true -> body_val_okb (kind_of rt) b = true ->
+  ctx_okb fl cn = true -> clean cn st -> contract_okb fsp (kind_of rt) b = true ->
+  observe_value (Some tc) rt e ck fl cn b st = Some (documented fsp (kind_of rt) b st).
+Proof. exact value_faithful. Qed.
+Print Assumptions C32_value_faithful.
+
+(* without the hypothesis conv tc v = conv rt v the statement is false: a raised exception is hidden *)
+Theorem C32_value_cast_const_hides_exception_refuted :
+  exists rt tc e ck fl cn ex st o,
+    clean cn st /\ ctx_okb fl cn = true /\
+    observe_value (Some tc) rt e ck fl cn (Raise ex) st = Some o /\
+    o_err o = false /\ pending (o_st o) = Some ex.
+Proof. exact cast_const_hides_exception. Qed.
+Print Assumptions C32_value_cast_const_hides_exception_refuted.
+
+Theorem C32_value_nocast_hides_exception_refuted :
+  exists rt e ck fl cn ex st o,
+    clean cn st /\ ctx_okb fl cn = true /\
+    observe_value None rt e ck fl cn (Raise ex) st = Some o /\
+    o_err o = false /\ pending (o_st o) = Some ex.
+Proof. exact nocast_hides_exception. Qed.
+Print Assumptions C32_value_nocast_hides_exception_refuted.
+
+(* floating return types; V = C doubles, feq = C ==, to_f32 = rounding to float (any functions): with the
+   cast to the return type the stored error value always satisfies the test (NaN included); with the cast
+   to double (the code as it is for a float function and a non-NaN constant) iff rounding keeps the constant *)
+Theorem C32_float_cast_ret_self : forall (V : Type) (feq : V -> V -> bool) (to_f32 : V -> V) rt c,
+  float_test V feq to_f32 true (Some rt) c (float_stored V to_f32 rt c) = true.
+Proof. exact float_cast_ret_self. Qed.
+Print Assumptions C32_float_cast_ret_self.
+
+Theorem C32_float_cast_const_self : forall (V : Type) (feq : V -> V -> bool) (to_f32 : V -> V) m c,
+  feq c c = true ->
+  float_test V feq to_f32 m (Some F64) c (float_stored V to_f32 F32 c) = feq (to_f32 c) c.
+Proof. exact float_cast_const_self. Qed.
+Print Assumptions C32_float_cast_const_self.
 
 Example C32_nonvacuous :
   let sp := {| ev := Some (Sent (VDbl DNaN) true); ec := ChkYes |} in
